@@ -1,3 +1,336 @@
-import Cstl.Heap.Model
+import Cstl.Heap.LemmasShape
+import Cstl.Heap.LemmasClear
+import Cstl.Heap.LemmasBfs
+/-
+Property theorems for the heap (C07; the heap part of C15).
+
+All theorems are about the model in `Model.lean`; `Inv h` says that the tree
+is max-heap ordered and complete with `h.size` nodes.  Slot numbers must fit
+the 64-bit value `cstl_fls` works on, hence the `< 2^64` side conditions
+(the C code itself addresses slots with `unsigned int`, DESIGN 7.3).
+-/
 namespace Cstl.Heap
+open Tree
+
+/-! ### `cstl_fls` -/
+
+/-- the mask loop returns the index of the highest set bit -/
+theorem fls_spec {x : Nat} (h0 : 0 < x) (hlt : x < 2 ^ 64) : fls x = (Nat.log2 x : Int) := by
+  unfold fls
+  rw [if_neg (by omega), flsLoop_eq_log2 h0 hlt]
+  rfl
+
+theorem fls_zero : fls 0 = -1 := rfl
+
+example : fls 0x5a5a5a5a = 30 ∧ fls (2 ^ 64 - 1) = 63 ∧ fls (3 <<< 16) = 17 := by decide +kernel
+
+/-! ### navigation by the bits of the slot number -/
+
+/-- `path` and the level-order numbering are inverse to each other: slot 1 is
+the root, the children of slot `k` are `2k` and `2k+1` -/
+theorem path_numbering :
+    path 1 = [] ∧
+    (∀ k (d : Bool), 0 < k → 2 * k + d.toNat < 2 ^ 64 → path (2 * k + d.toNat) = path k ++ [d]) ∧
+    (∀ loc, 0 < loc → loc < 2 ^ 64 → locOf (path loc) = loc) ∧
+    (∀ ds, locOf ds < 2 ^ 64 → path (locOf ds) = ds) :=
+  ⟨path_one, fun _ d hk hlt => path_double d hk hlt, locOf_path, fun _ h => path_locOf h⟩
+
+example : path 6 = [true, false] ∧ path 11 = [false, true, true] ∧ locOf [false, true, true] = 11 := by
+  decide +kernel
+
+/-- on a complete tree with `n` nodes `cstl_heap_find(h, id)` reaches the node
+in slot `id + 1` (the node with 0-based level-order number `id`) when
+`id < n`, and NULL otherwise — in particular for `id = n`, the first free slot.
+The node reached is the one at *the* position whose number is `id + 1`. -/
+theorem findSlot_level_order {t : Tree} {n id : Nat} (hc : Complete t n) (hlt : id + 1 < 2 ^ 64) :
+    (∀ ds, locOf ds = id + 1 → findSlot t id = walk t ds) ∧
+    (id < n → ∃ l e r, findSlot t id = node l e r ∧ elemAt t (path (id + 1)) = some e) ∧
+    (n ≤ id → findSlot t id = nil) := by
+  have hloc : locOf (path (id + 1)) = id + 1 := locOf_path _ (by omega) hlt
+  refine ⟨?_, ?_, ?_⟩
+  · intro ds hds
+    have : ds = path (id + 1) := locOf_inj (by omega) (by omega)
+    rw [this]; rfl
+  · intro hid
+    have hocc : Occ t (path (id + 1)) := (hc _).2 (by omega)
+    cases hw : findSlot t id with
+    | nil => exact absurd hocc (walk_eq_nil_iff.1 hw)
+    | node l e r => exact ⟨l, e, r, rfl, walk_node_elemAt hw⟩
+  · intro hid
+    apply walk_eq_nil_iff.2
+    intro hocc
+    have := (hc _).1 hocc
+    omega
+
+/-- `Complete` read through `cstl_heap_find`: the ids that lead to a node are
+exactly `0 … n-1` -/
+theorem complete_findSlot {t : Tree} {n id : Nat} (hc : Complete t n) (hlt : id + 1 < 2 ^ 64) :
+    findSlot t id ≠ nil ↔ id < n := by
+  obtain ⟨_, h1, h2⟩ := findSlot_level_order hc hlt
+  constructor
+  · intro h
+    apply Classical.byContradiction
+    intro hn
+    exact h (h2 (by omega))
+  · intro h hnil
+    obtain ⟨l, e, r, he, _⟩ := h1 h
+    rw [he] at hnil
+    exact Tree.noConfusion hnil
+
+/-- the slot numbering *is* the level order: the breadth-first traversal of a
+complete tree from its root (`levelOrder`, the dump the harness produces from
+the real pointers) lists the slots `1, 2, …, n` in this order, and
+`cstl_heap_find(h, id)` reaches the `id`-th node (0-based) of that traversal -/
+theorem findSlot_bfs {t : Tree} {n id : Nat} (hc : Complete t n) (hn : n + 1 < 2 ^ 62)
+    (hid : id < n) :
+    levelOrder t = slotElems t 1 n ∧
+    ∃ l e r, findSlot t id = node l e r ∧ (levelOrder t)[id]? = some (id + 1, e) := by
+  have h64 : (2 : Nat) ^ 62 ≤ 2 ^ 64 := by decide
+  have hlo := levelOrder_complete hc hn
+  obtain ⟨l, e, r, hf, he⟩ := (findSlot_level_order hc (id := id) (by omega)).2.1 hid
+  refine ⟨hlo, l, e, r, hf, ?_⟩
+  rw [hlo]
+  have := slotElems_getElem? (t := t) n 1 id e hid (by rw [Nat.add_comm]; exact he) (fun j hj => by
+    obtain ⟨_, x, _, _, hx⟩ := (findSlot_level_order hc (id := j) (by omega)).2.1 (by omega)
+    exact ⟨x, by rw [Nat.add_comm]; exact hx⟩)
+  rw [this, Nat.add_comm]
+
+example : levelOrder (node (node (leaf ⟨1, 4⟩) ⟨3, 2⟩ nil) ⟨5, 1⟩ (leaf ⟨4, 3⟩))
+    = [(1, ⟨5, 1⟩), (2, ⟨3, 2⟩), (3, ⟨4, 3⟩), (4, ⟨1, 4⟩)] := by decide +kernel
+
+/-! ### heap order -/
+
+/-- the invariant's order predicate ("every node ≥ everything below it") is
+the usual local one ("every node ≥ its children") -/
+theorem heapOrdered_iff_local : ∀ t : Tree, HeapOrdered t ↔ LocalOrdered t := by
+  intro t
+  induction t with
+  | nil => exact Iff.rfl
+  | node l e r ihl ihr =>
+    constructor
+    · intro h
+      exact ⟨rootLe_of_allLe h.1, rootLe_of_allLe h.2.1, ihl.1 h.2.2.1, ihr.1 h.2.2.2⟩
+    · intro h
+      have hl := ihl.2 h.2.2.1
+      have hr := ihr.2 h.2.2.2
+      refine ⟨?_, ?_, hl, hr⟩
+      · cases l with
+        | nil => exact allLe_nil _
+        | node ll x lr => exact allLe_mono hl.allLe_root h.1
+      · cases r with
+        | nil => exact allLe_nil _
+        | node rl y rr => exact allLe_mono hr.allLe_root h.2.1
+
+/-! ### the operations -/
+
+theorem inv_empty : Inv empty := ⟨trivial, complete_nil⟩
+
+/-- `cstl_heap_push` never dereferences NULL, keeps the invariant, adds exactly
+the pushed element and increments the size -/
+theorem push_spec {h : Heap} (e : Elem) (hi : Inv h) (hlt : h.size + 1 < 2 ^ 64) :
+    ∃ h', push h e = some h' ∧ Inv h' ∧ (elems h'.t).Perm (e :: elems h.t) ∧
+      h'.size = h.size + 1 := by
+  obtain ⟨t, n⟩ := h
+  obtain ⟨ho, hc⟩ := hi
+  simp only at ho hc hlt
+  cases t with
+  | nil =>
+    have hn : n = 0 := (Inv.size_zero_iff (h := ⟨nil, n⟩) ⟨ho, hc⟩).2 rfl
+    subst hn
+    exact ⟨⟨leaf e, 1⟩, rfl, ⟨heapOrdered_leaf e, complete_leaf e⟩, by simp, rfl⟩
+  | node l x r =>
+    have hn : 1 ≤ n := by
+      apply Classical.byContradiction
+      intro hc0
+      have h0 : n = 0 := by omega
+      have := complete_zero (h0 ▸ hc)
+      exact Tree.noConfusion this
+    obtain ⟨hfree, t1, hat, hc1⟩ := complete_attach e hc hn hlt
+    obtain ⟨t2, rising, hsu, hres⟩ := siftUp_attach e _ _ _ _ ho hfree hat
+    refine ⟨⟨t2, n + 1⟩, ?_, ⟨hres.ho, hc1.of_shape hres.shp⟩, hres.perm2, rfl⟩
+    simp only [push]
+    rw [if_neg (by omega)]
+    simp only [hat, hsu]
+
+example : (push ⟨node (leaf ⟨3, 2⟩) ⟨5, 1⟩ nil, 2⟩ ⟨7, 3⟩).map (·.t)
+    = some (node (leaf ⟨3, 2⟩) ⟨7, 3⟩ (leaf ⟨5, 1⟩)) := by decide +kernel
+
+/-- `cstl_heap_get`: NULL exactly on the empty heap, otherwise a held element
+that compares `≥` every held element -/
+theorem get_spec {h : Heap} (hi : Inv h) :
+    (get h = none ↔ h.size = 0) ∧
+    (∀ x, get h = some x → x ∈ elems h.t ∧ ∀ y ∈ elems h.t, y.key ≤ x.key) := by
+  obtain ⟨t, n⟩ := h
+  cases t with
+  | nil =>
+    refine ⟨⟨fun _ => (hi.size_zero_iff).2 rfl, fun _ => rfl⟩, fun x hx => ?_⟩
+    simp [get] at hx
+  | node l e r =>
+    refine ⟨⟨fun hg => by simp [get] at hg, fun h0 => ?_⟩, fun x hx => ?_⟩
+    · have := (hi.size_zero_iff).1 h0
+      exact Tree.noConfusion this
+    · simp [get] at hx
+      subst hx
+      exact ⟨by simp, hi.1.allLe_root⟩
+
+/-- `cstl_heap_pop` on a non-empty heap never dereferences NULL, returns what
+`get` returns — a held element `≥` every held element —, removes exactly it,
+decrements the size and keeps the invariant -/
+theorem pop_spec {h : Heap} (hi : Inv h) (hlt : h.size < 2 ^ 64) (hpos : 0 < h.size) :
+    ∃ h' x, pop h = some (h', some x) ∧ get h = some x ∧ Inv h' ∧
+      (elems h.t).Perm (x :: elems h'.t) ∧ (∀ y ∈ elems h.t, y.key ≤ x.key) ∧
+      h'.size = h.size - 1 := by
+  obtain ⟨t, n⟩ := h
+  obtain ⟨ho, hc⟩ := hi
+  simp only at ho hc hlt hpos
+  obtain ⟨m, rfl⟩ : ∃ m, n = m + 1 := ⟨n - 1, by omega⟩
+  cases t with
+  | nil => exact absurd (hc.root (by omega)) (by simp)
+  | node l res r =>
+    obtain ⟨t1, x, hrm, hc1, hperm⟩ := complete_remove hc hlt
+    have hmax : ∀ y ∈ elems (node l res r), y.key ≤ res.key := ho.allLe_root
+    have ho1 : HeapOrdered t1 := removeAt_heapOrdered hrm ho
+    rcases removeAt_root hrm with ⟨_, rfl, rfl⟩ | ⟨_, l1, r1, rfl⟩
+    · refine ⟨⟨nil, m⟩, x, ?_, rfl, ⟨trivial, hc1⟩, hperm, hmax, rfl⟩
+      simp only [pop]
+      rw [if_neg (by omega)]
+      simp only [hrm]
+      rfl
+    · obtain ⟨hso, hsh, hsp⟩ := siftInto_spec x (node l1 res r1) ho1.sub
+      have hsp := hsp (by simp)
+      refine ⟨⟨siftInto x (node l1 res r1), m⟩, res, ?_, rfl, ⟨hso, hc1.of_shape hsh⟩, ?_, hmax, rfl⟩
+      · simp only [pop]
+        rw [if_neg (by omega)]
+        simp only [hrm]
+        rfl
+      · refine List.perm_iff_count.2 fun a => ?_
+        have h1 := hperm.count_eq a
+        have h2 := hsp.count_eq a
+        simp only [kids, elems_node, List.count_cons, List.count_append] at h1 h2 ⊢
+        omega
+
+example : pop ⟨node (leaf ⟨3, 2⟩) ⟨5, 1⟩ (leaf ⟨5, 3⟩), 3⟩
+    = some (⟨node (leaf ⟨3, 2⟩) ⟨5, 3⟩ nil, 2⟩, some ⟨5, 1⟩) := by decide +kernel
+
+/-- get and pop return NULL on an empty heap, and pop leaves it unchanged -/
+theorem empty_null {h : Heap} (hi : Inv h) (h0 : h.size = 0) :
+    get h = none ∧ pop h = some (h, none) := by
+  have ht := (hi.size_zero_iff).1 h0
+  obtain ⟨t, n⟩ := h
+  simp only at ht
+  subst ht
+  exact ⟨rfl, rfl⟩
+
+/-- size tracks the count -/
+theorem size_eq {h : Heap} (hi : Inv h) (hlt : h.size < 2 ^ 64) : size h = (elems h.t).length :=
+  (complete_length _ _ hlt hi.2).symm
+
+/-! ### clear (C15, heap part) -/
+
+/-- `cstl_heap_clear`: the callbacks are exactly the held elements, each once
+(`Perm`); with distinct addresses, all the traversal does with an element is
+read its child pointers once and then call back on it, never the other way
+round and never again; the heap is left as freshly initialised (so every
+theorem above applies to the reused heap). -/
+theorem clear_spec {h : Heap} (hi : Inv h) :
+    (clear h).2.Perm (elems h.t) ∧
+    (clear h).2 = clearOrder h.t ∧
+    (clearTrace h.t).filterMap Ev.cbId = (clear h).2.map (·.id) ∧
+    ((ids h.t).Nodup → ∀ i ∈ ids h.t,
+      (clearTrace h.t).filter (Ev.involves i) = [Ev.touch i, Ev.cb i]) ∧
+    (clear h).1 = empty ∧ Inv (clear h).1 := by
+  obtain ⟨t, n⟩ := h
+  have hco : (clear ⟨t, n⟩).2 = clearOrder t := by
+    cases t <;> rfl
+  have hst : (clear ⟨t, n⟩).1 = empty := by
+    cases t with
+    | nil =>
+      have : n = 0 := (hi.size_zero_iff).2 rfl
+      subst this; rfl
+    | node l e r => rfl
+  refine ⟨?_, hco, ?_, fun hnd i hi' => clearTrace_filter t hnd hi', hst, hst ▸ inv_empty⟩
+  · rw [hco]; exact clearOrder_perm t
+  · rw [hco]; exact clearTrace_cbs t
+
+example : clearTrace (node (leaf ⟨3, 2⟩) ⟨5, 1⟩ (leaf ⟨5, 3⟩)) =
+    [Ev.touch 1, Ev.touch 2, Ev.cb 2, Ev.touch 3, Ev.cb 3, Ev.cb 1] := rfl
+
+/-! ### histories -/
+
+theorem step_inv {h : Heap} (op : Op) (hi : Inv h) (hlt : h.size + 1 < 2 ^ 64) :
+    ∃ h', step h op = some h' ∧ Inv h' ∧ h'.size ≤ h.size + 1 := by
+  cases op with
+  | push e =>
+    obtain ⟨h', hp, hi', _, hs⟩ := push_spec e hi hlt
+    exact ⟨h', hp, hi', by omega⟩
+  | pop =>
+    by_cases h0 : h.size = 0
+    · refine ⟨h, ?_, hi, by omega⟩
+      simp [step, (empty_null hi h0).2]
+    · obtain ⟨h', x, hp, _, hi', _, _, hs⟩ := pop_spec hi (by omega) (by omega)
+      exact ⟨h', by simp [step, hp], hi', by omega⟩
+  | clear =>
+    obtain ⟨_, _, _, _, he, hi'⟩ := clear_spec hi
+    refine ⟨(clear h).1, rfl, hi', ?_⟩
+    rw [he]; simp [empty]
+
+/-- every history from a state satisfying the invariant runs to completion
+(no NULL dereference) and ends in a state satisfying the invariant -/
+theorem runFrom_inv : ∀ (ops : List Op) (h : Heap), Inv h → h.size + ops.length < 2 ^ 64 →
+    ∃ h', runFrom h ops = some h' ∧ Inv h' ∧ h'.size ≤ h.size + ops.length := by
+  intro ops
+  induction ops with
+  | nil => intro h hi _; exact ⟨h, rfl, hi, by simp⟩
+  | cons op ops ih =>
+    intro h hi hlt
+    simp only [List.length_cons] at hlt
+    obtain ⟨h1, hs, hi1, hle⟩ := step_inv op hi (by omega)
+    obtain ⟨h2, hr, hi2, hle2⟩ := ih h1 hi1 (by omega)
+    refine ⟨h2, ?_, hi2, by simp only [List.length_cons]; omega⟩
+    simp [runFrom, hs, hr]
+
+/-- every reachable state: any interleaving of push / pop / clear from the
+freshly initialised heap keeps the tree heap-ordered and complete -/
+theorem run_inv (ops : List Op) (hlt : ops.length < 2 ^ 64) :
+    ∃ h, run ops = some h ∧ Inv h ∧ h.size ≤ ops.length := by
+  obtain ⟨h, hr, hi, hle⟩ := runFrom_inv ops empty inv_empty (by simpa [empty] using hlt)
+  exact ⟨h, hr, hi, by simpa [empty] using hle⟩
+
+/-- C07 for every history: in the state reached by any interleaving of
+operations, get/pop return NULL iff nothing is held; otherwise pop returns the
+element get returns, which is held and `≥` every held element, removes exactly
+it, and size is the number of held elements -/
+theorem run_max (ops : List Op) (hlt : ops.length < 2 ^ 64) :
+    ∃ h, run ops = some h ∧ size h = (elems h.t).length ∧
+      ((elems h.t = [] → get h = none ∧ pop h = some (h, none)) ∧
+       (elems h.t ≠ [] → ∃ h' x, pop h = some (h', some x) ∧ get h = some x ∧ x ∈ elems h.t ∧
+          (∀ y ∈ elems h.t, y.key ≤ x.key) ∧ (elems h.t).Perm (x :: elems h'.t) ∧
+          size h' = size h - 1 ∧ Inv h')) := by
+  obtain ⟨h, hr, hi, hle⟩ := run_inv ops hlt
+  have hsz := size_eq hi (by omega)
+  refine ⟨h, hr, hsz, ?_, ?_⟩
+  · intro he
+    apply empty_null hi
+    rw [he] at hsz
+    exact hsz
+  · intro hne
+    have hpos : 0 < h.size := by
+      have : size h = h.size := rfl
+      rw [this] at hsz
+      rw [hsz]
+      exact List.length_pos_iff.2 hne
+    obtain ⟨h', x, hp, hg, hi', hperm, hmax, hs⟩ := pop_spec hi (by omega) hpos
+    exact ⟨h', x, hp, hg, hperm.mem_iff.2 (by simp), hmax, hperm, hs, hi'⟩
+
+example : (run [Op.push ⟨1, 1⟩, Op.push ⟨3, 2⟩, Op.pop, Op.push ⟨2, 3⟩]).map (fun h => (get h, size h))
+    = some (some ⟨2, 3⟩, 2) := by decide +kernel
+
+/-- the invariant is satisfiable on a non-trivial state (three pushes) -/
+example : ∃ h, Inv h ∧ h.size = 3 ∧ (elems h.t).Perm [⟨2, 3⟩, ⟨3, 2⟩, ⟨1, 1⟩] := by
+  obtain ⟨h1, _, i1, p1, s1⟩ := push_spec ⟨1, 1⟩ inv_empty (by decide)
+  obtain ⟨h2, _, i2, p2, s2⟩ := push_spec ⟨3, 2⟩ i1 (by rw [s1]; decide)
+  obtain ⟨h3, _, i3, p3, s3⟩ := push_spec ⟨2, 3⟩ i2 (by rw [s2, s1]; decide)
+  refine ⟨h3, i3, by rw [s3, s2, s1]; rfl, ?_⟩
+  exact p3.trans ((p2.trans (p1.cons _)).cons _)
+
 end Cstl.Heap
